@@ -6,6 +6,7 @@
 import XotModel.Driver.Entity
 import XotModel.Driver.Tree
 import XotModel.Driver.Forest
+import XotModel.Driver.Fspec
 import XotModel.Driver.IdMap
 
 open XotModel.Driver
@@ -24,6 +25,8 @@ structure MState where
 
 def dispatchAll (st : MState) (line : String) : MState × String :=
   match words line with
+  | "forest" :: "spec" :: rest => (st, (handleFspec st.forest ("spec" :: rest)).getD "bad-request")
+  | "forest" :: "specx" :: rest => (st, (handleFspec st.forest ("specx" :: rest)).getD "bad-request")
   | "forest" :: rest =>
     (match handleForest st.forest rest with
      | some (fs, resp) => ({ st with forest := fs }, resp)
